@@ -4,8 +4,8 @@
 (* Lo..Lo+NL-1 (symmetric around zero) up to MaxLen samples, with the      *)
 (* implementation in lock-step.                                            *)
 (*                                                                         *)
-(* TABLE_FILE row: code, then nine length-prefixed index lists             *)
-(*   for tol in <<0, 1/2, 3/2>>:  zc(keep_adj_zeros=False), zc(True),      *)
+(* TABLE_FILE row: code, then twelve length-prefixed index lists           *)
+(*   for tol in <<0, 1, 3/2, 2>>:  zc(keep_adj_zeros=False), zc(True),     *)
 (*                                switched peaks                           *)
 (***************************************************************************)
 EXTENDS Crossings, SequencesExt, IOUtils, TLC, VerdictLib, TableIO
@@ -70,6 +70,6 @@ Conforms == n >= 1 =>
      /\ \A c \in {"SwitchedAscending", "OnePerExcursion", "AtExcursionMax", "ExtrasAreZeroTurningPoints", "NoSharedSign"} :
           Chk(c \notin bad0, code, c)
      /\ Chk((bad0 = {}) = Decl(sw0), code, "AcceptorDeclDisagree")
-     /\ Chk(\A t \in {1, 2} : IsSubseqOf(List(3 * t + 1), zc0F) /\ IsSubseqOf(List(3 * t + 2), zc0T), code, "TolSubsequenceZc")
-     /\ Chk(\A t \in {1, 2} : IsSubseqOf(List(3 * t + 3), sw0), code, "TolSubsequence")
+     /\ Chk(\A t \in {1, 2, 3} : IsSubseqOf(List(3 * t + 1), zc0F) /\ IsSubseqOf(List(3 * t + 2), zc0T), code, "TolSubsequenceZc")
+     /\ Chk(\A t \in {1, 2, 3} : IsSubseqOf(List(3 * t + 3), sw0), code, "TolSubsequence")
 =============================================================================
